@@ -34,7 +34,7 @@
     guarded zero frame): no per-state check.  OUTSIDE that domain the Go code re-resolves the pointer after Memset and
     after each store while the model resolves it once; the examples keep the differing case (Init of a live page table).
     Statements only; proofs are in Vmm/PdtTrans.v and Vmm/StableInv.v. *)
-From Coq Require Import NArith String List.
+From Coq Require Import NArith String List Bool.
 From FF Require Import Lib.Word Lib.GoOps Gen.Consts_mm_vmm Gen.Trans_vmm_pdt Vmm.Pt.
 From FF Require Vmm.PdtTrans Vmm.StableInv.
 From FF Require Import Vmm.PtMap.
